@@ -357,6 +357,16 @@ fn gen_bool_tree(g: &mut G, depth: u32) -> E {
             Box::new(gen_bool_tree(g, depth - 1)),
             Box::new(gen_bool_tree(g, depth - 1)),
         ),
+        6 => {
+            // a chain of relations: `a < b < c` is `(a < b) < c` (a bool meets an int; the reference
+            // evaluator is silent there, the renderings are still compared with each other)
+            let op = *g.pick(&[Op::Lt, Op::Le, Op::Gt, Op::Ge, Op::Eq, Op::Ne]);
+            let lhs = {
+                let op1 = *g.pick(&[Op::Lt, Op::Le, Op::Gt, Op::Ge, Op::Eq, Op::Ne]);
+                bin(op1, gen_int_tree(g, depth - 1), gen_int_tree(g, depth - 1))
+            };
+            bin(op, lhs, gen_int_tree(g, depth - 1))
+        }
         _ => {
             let op = *g.pick(&[Op::Lt, Op::Le, Op::Gt, Op::Ge, Op::Eq, Op::Ne]);
             bin(op, gen_int_tree(g, depth - 1), gen_int_tree(g, depth - 1))
@@ -608,6 +618,46 @@ fn check_unary_run(sign: &str, n: usize, v: &V, sub: &str, acc: &mut Acc) -> Vec
     out
 }
 
+/// a sign in front of a literal that carries a postfix chain: the chain binds tighter, so
+/// `-1.5.max(2.0)` is `-(1.5.max(2.0))`, never `(-1.5).max(2.0)`
+fn check_sign_postfix(sign: &str, n: usize, lit: &str, postfix: &str, acc: &mut Acc) -> Vec<Failure> {
+    let run = sign.repeat(n);
+    let a = format!("{}{}{}", run, lit, postfix);
+    let b = format!("{}({}{})", run, lit, postfix);
+    let c = format!("{} {}{}", run, lit, postfix);
+    acc.case("sign-postfix", &a, true, &format!("sign-postfix:{}", sign));
+    let ra = eval(&a, &[]).res.sum();
+    let rb = eval(&b, &[]).res.sum();
+    let rc = eval(&c, &[]).res.sum();
+    acc.eval_only("sign-postfix", 2);
+    acc.sample(&format!("sign-postfix:{}", sign), || json!({"source": a, "grouped": b, "result": ra.show(), "grouped_result": rb.show()}));
+    if ra.coarse() != rb.coarse() || rc.coarse() != rb.coarse() {
+        return vec![Failure::new(
+            format!("c02:sign-postfix:{}:grouping-differs", if sign == "!" { "not" } else { "neg" }),
+            format!("{:?} -> {} and {:?} -> {} but {:?} -> {}: a postfix chain binds tighter than the sign", a, ra.show(), c, rc.show(), b, rb.show()),
+            json!({"kind": "sign-postfix", "sign": sign, "n": n, "lit": lit, "postfix": postfix}),
+        )];
+    }
+    vec![]
+}
+
+fn sign_postfix(acc: &mut Acc) {
+    let lits = ["1.5", "3", "2u", "0.5", "7", "'abc'", "true", "[1, 2]", "{'a': 1}"];
+    let posts = [".max(2.0)", ".min(0)", ".max(1, 9)", ".size()", ".contains('b')", "[0]", ".a", ".abs()", ".floor()", ".string()", ".int()", ".type()"];
+    for sign in ["-", "!"] {
+        for n in 1..=2 {
+            for l in lits {
+                for p in posts {
+                    for f in check_sign_postfix(sign, n, l, p, acc) {
+                        acc.fail(f);
+                    }
+                }
+            }
+        }
+    }
+    acc.mark_exhaustive("sign-postfix", "1-2 signs x 9 literal receivers x 12 postfix chains (methods that use or ignore their receiver, index, field): bare, spaced and grouped spelling evaluate alike");
+}
+
 fn unary_runs(opts: &Opts, acc: &mut Acc) {
     let mut pts: Vec<(&'static str, usize, V)> = Vec::new();
     for v in unary_pool() {
@@ -629,6 +679,7 @@ fn unary_runs(opts: &Opts, acc: &mut Acc) {
 
 fn run(opts: &Opts, acc: &mut Acc) {
     unary_runs(opts, acc);
+    sign_postfix(acc);
     if opts.is_dbg() {
         // parsing is profile independent; the dbg part only repeats the evaluation sub-run
         random_genomes(acc, opts, "eval", 3000, 96, |gn, a| check_eval(gn, "eval", a));
@@ -855,6 +906,15 @@ fn replay(_opts: &Opts, d: &Value, acc: &mut Acc) {
                     format!("{:?} evaluated to {}", src, r.show()),
                     d.clone(),
                 ));
+            }
+        }
+        "sign-postfix" => {
+            let sign = if d.get("sign").and_then(|s| s.as_str()) == Some("!") { "!" } else { "-" };
+            let n = d.get("n").and_then(|n| n.as_u64()).unwrap_or(1) as usize;
+            let lit = d.get("lit").and_then(|s| s.as_str()).unwrap_or("1.5");
+            let postfix = d.get("postfix").and_then(|s| s.as_str()).unwrap_or(".max(2.0)");
+            for f in check_sign_postfix(sign, n, lit, postfix, acc) {
+                acc.fail(f);
             }
         }
         "unary" => {
